@@ -157,20 +157,32 @@ Theorem rdata_comparison_symmetric :
 Proof. exact dup_cmps_sym. Qed.
 Print Assumptions rdata_comparison_symmetric.
 
-(* ... and transitive *)
+(* ... and transitive, for outer values of one Go type ([same_shape v1 v3]:
+   wherever both hold a value it is of the same kind).  In the model a field the
+   record does not carry (unpack() returned early) is the zero value of whatever
+   the other side holds, so without this an absent middle field would link a
+   number 0 to an empty string: the refuted statement below. *)
 Theorem rdata_comparison_transitive :
   forall (cs : list dcmp) (v1 v2 v3 : rdata),
-    cmps_wf cs = true ->
+    cmps_wf cs = true -> same_shape v1 v3 ->
     dup_cmps cs v1 v2 = Ok true -> dup_cmps cs v2 v3 = Ok true -> dup_cmps cs v1 v3 = Ok true.
 Proof. exact dup_cmps_trans. Qed.
 Print Assumptions rdata_comparison_transitive.
 
-(* a true verdict means every listed field agrees: scalars are equal, names are
+Theorem rdata_comparison_transitive_untyped_refuted :
+  let cs := [D_eq "X"; D_const true] in
+  let v1 := [("X"%string, V_n 0)] in let v2 : rdata := [] in let v3 := [("X"%string, V_s [])] in
+  cmps_wf cs = true /\ dup_cmps cs v1 v2 = Ok true /\ dup_cmps cs v2 v3 = Ok true /\ dup_cmps cs v1 v3 = Ok false.
+Proof. exact dup_cmps_trans_untyped_witness. Qed.
+Print Assumptions rdata_comparison_transitive_untyped_refuted.
+
+(* a true verdict means every listed field agrees: scalars are equal
+   ([val_agree]: equal, an absent field standing for the zero value), names are
    equal up to letter case *)
 Theorem duplicate_rdata_agree_on_compared_fields :
   forall (cs : list dcmp) (v1 v2 : rdata) (f : string),
     cmps_wf cs = true -> dup_cmps cs v1 v2 = Ok true ->
-    (In (D_eq f) cs -> vget v1 f = vget v2 f) /\
+    (In (D_eq f) cs -> val_agree (vget v1 f) (vget v2 f)) /\
     (In (D_name f) cs -> lower_bytes (as_s (vget v1 f)) = lower_bytes (as_s (vget v2 f))).
 Proof. exact dup_cmps_true_fields. Qed.
 Print Assumptions duplicate_rdata_agree_on_compared_fields.
@@ -215,6 +227,7 @@ Print Assumptions is_duplicate_symmetric.
 
 Theorem is_duplicate_transitive :
   forall r1 r2 r3 : rr,
+    same_shape (rr_data r1) (rr_data r3) ->
     is_duplicate r1 r2 = Ok true -> is_duplicate r2 r3 = Ok true -> is_duplicate r1 r3 = Ok true.
 Proof. exact is_duplicate_trans. Qed.
 Print Assumptions is_duplicate_transitive.
@@ -307,6 +320,13 @@ Example mx_records :
   is_duplicate mx_a mx_c = Ok false.
 Proof. vm_compute. repeat split. Qed.
 
+(* same_shape holds between records of one Go type *)
+Example mx_same_shape : same_shape (rr_data mx_a) (rr_data mx_c).
+Proof.
+  intros f. unfold kinds_ok. cbn [rr_data mx_a mx_c vget].
+  destruct (String.eqb f "Preference"); [reflexivity|]. destruct (String.eqb f "Mx"); reflexivity.
+Qed.
+
 (* SVCB parameters in a different order, equal lengths: no panic, duplicates *)
 Example svcb_values :
   let cs := [D_eq "Priority"; D_name "Target"; D_len_eq "Value"; D_pairs "Value"; D_const true] in
@@ -344,18 +364,20 @@ Example wire_names :
 Proof. vm_compute. repeat split. discriminate. Qed.
 
 (* ---------------- Part B, continued: duplicates = all fields agree ---------------- *)
-(* [agree c v1 v2]: the field(s) comparison c looks at agree --
-     D_eq f, D_each_eq f   the values are equal (for lists: same length, same elements);
-     D_name f              the names are equal up to ASCII case (lower_bytes);
-     D_len_eq f            both absent or lists of the same kind and length (same_len);
-     D_each_name f         same_len and the lists of names are equal up to case, element-wise;
-     D_each_equals f       same_len and element-wise APLPrefix.equals (apl_agree: negation,
-                           prefix length, address length equal, address equal up to the 4/16-octet form);
-     D_ip_equal f          equal up to the 4/16-octet form (ip_norm);
-     D_pairs f             same_len and the key-sorted lists of (key, packed value) are equal;
-     D_gateway ..          gateway types equal, and the address (types 1,2: up to 4/16 form)
-                           or the host name (type 3: up to case) agree  (gw_agree);
-     D_const b             b = true. *)
+(* [agree c v1 v2]: the field(s) comparison c looks at agree, an absent field
+   standing for the zero value / empty list (the as_ accessors) --
+     D_eq f           val_agree: equal values;
+     D_name f         the names are equal up to ASCII case (lower_bytes);
+     D_len_eq f       same_len: lists of the same kind and length;
+     D_each_eq f      same_len and the lists are equal;
+     D_each_name f    the lists of names are equal up to case, element-wise;
+     D_each_equals f  element-wise APLPrefix.equals (apl_agree: negation, prefix length,
+                      address length equal, address equal up to the 4/16-octet form);
+     D_ip_equal f     equal up to the 4/16-octet form (ip_norm);
+     D_pairs f        the key-sorted lists of (key, packed value) are equal;
+     D_gateway ..     gateway types equal, and the address (types 1,2: up to 4/16 form)
+                      or the host name (type 3: up to case) agree  (gw_agree);
+     D_const b        b = true. *)
 Theorem rdata_duplicate_iff_all_compared_fields_agree :
   forall (cs : list dcmp) (v1 v2 : rdata),
     cmps_wf cs = true -> typed_for cs v1 = true -> typed_for cs v2 = true ->
@@ -379,20 +401,22 @@ Theorem comparison_lists_are_the_wire_layouts :
 Proof. exact dups_match_layouts. Qed.
 Print Assumptions comparison_lists_are_the_wire_layouts.
 
-(* [field_agree p v1 v2] for a pack statement p = (field, kind) of the layout:
-   names (K_name) equal up to case; lists of names (K_names) same_len and equal
-   up to case; K_a/K_aaaa equal up to the 4/16-octet form; K_svcb/K_opt equal
-   as key-sorted (key, packed value) lists; K_apl element-wise apl_agree; the
-   gateway as gw_agree; every other kind (integers, character-strings, TXT,
-   type bitmaps, hex/base64/base32 blobs ...) equal as values.
-   Hence: two records whose RDATA is typed for the type's comparison list (all
-   records from the wire are, see below) are duplicates EXACTLY when class, type,
-   Go type agree, the owners agree up to case and every field of the wire layout
-   agrees -- for every type with a layout other than OPT. *)
+(* [field_agree p v1 v2] for a pack statement p = (field, kind) of the layout, on
+   the Go values of the field (absent = zero value): integers equal (as_n);
+   names (K_name) equal up to case; character-strings equal (as_s); TXT and lists
+   of names (K_names, up to case) equal element-wise; hex/base64/base32 blobs
+   equal (as_enc); K_a/K_aaaa equal up to the 4/16-octet form; type bitmaps equal
+   (as_ns); K_svcb/K_opt equal as key-sorted (key, packed value) lists; K_apl
+   element-wise apl_agree; the gateway as gw_agree.
+   [layout_typed L v]: every field of layout L holds in v a value of its Go type
+   or is absent (all records from the wire do, see below).
+   Hence two such records are duplicates EXACTLY when class, type, Go type agree,
+   the owners agree up to case and every field of the wire layout agrees -- for
+   every type with a layout other than OPT. *)
 Theorem is_duplicate_iff_header_and_every_wire_field_agree :
   forall (r1 r2 : rr) (L : tlayout),
     rr_kind r1 <> "OPT"%string -> find_layout layouts (rr_kind r1) = Some L ->
-    typed_for (layout_cmps L) (rr_data r1) = true -> typed_for (layout_cmps L) (rr_data r2) = true ->
+    layout_typed L (rr_data r1) = true -> layout_typed L (rr_data r2) = true ->
     (is_duplicate r1 r2 = Ok true <->
      rr_class r1 = rr_class r2 /\ rr_type r1 = rr_type r2 /\ rr_kind r1 = rr_kind r2 /\
      lower_bytes (rr_name r1) = lower_bytes (rr_name r2) /\
@@ -432,12 +456,41 @@ Theorem unpacked_rdata_is_typed :
 Proof. exact unpacked_rdata_typed. Qed.
 Print Assumptions unpacked_rdata_is_typed.
 
+(* and holds in every field of the layout a value of that field's Go type; table
+   checks: the unpack statements assign each pack field a value of its type, and
+   no field two kinds of value *)
+Theorem unpacked_field_kinds_fit_the_layout :
+  forallb (fun L => forallb (fun p => forallb (fun gc => field_class_ok p (fst gc) (snd gc)) (layout_classes L)) (tl_pack L))
+          layouts = true.
+Proof. exact layout_classes_fit_fields. Qed.
+Print Assumptions unpacked_field_kinds_fit_the_layout.
+
+Theorem unpacked_field_kinds_are_unambiguous :
+  forallb (fun L => classes_functional (layout_classes L)) layouts = true.
+Proof. exact layout_classes_functional. Qed.
+Print Assumptions unpacked_field_kinds_are_unambiguous.
+
+Theorem unpacked_rdata_has_the_layout_field_types :
+  forall (k : string) (L : tlayout) (msg : bytes) (off : N) (v : rdata) (off' : N),
+    find_layout layouts k = Some L ->
+    unpack_fields (tl_unpack L) [] msg off = Ok (v, off') -> layout_typed L v = true.
+Proof. exact unpacked_rdata_layout_typed. Qed.
+Print Assumptions unpacked_rdata_has_the_layout_field_types.
+
 (* every record UnpackRR returns, of any type but OPT, is a duplicate of itself *)
 Theorem unpacked_record_is_its_own_duplicate :
   forall (msg : bytes) (off : N) (r : rr) (off' : N),
     unpack_rr msg off = Ok (r, off') -> rr_kind r <> "OPT"%string -> is_duplicate r r = Ok true.
 Proof. exact unpacked_rr_is_own_duplicate. Qed.
 Print Assumptions unpacked_record_is_its_own_duplicate.
+
+(* transitivity needs no side condition when the outer records come from the wire *)
+Theorem unpacked_records_duplicate_transitive :
+  forall (m1 : bytes) (o1 : N) (r1 : rr) (o1' : N) (m3 : bytes) (o3 : N) (r3 : rr) (o3' : N) (r2 : rr),
+    unpack_rr m1 o1 = Ok (r1, o1') -> unpack_rr m3 o3 = Ok (r3, o3') ->
+    is_duplicate r1 r2 = Ok true -> is_duplicate r2 r3 = Ok true -> is_duplicate r1 r3 = Ok true.
+Proof. exact unpacked_rr_duplicate_trans. Qed.
+Print Assumptions unpacked_records_duplicate_transitive.
 
 (* two records from the wire are duplicates exactly when header (owner up to
    case) and every field of the wire layout agree (names up to case) *)
@@ -462,28 +515,35 @@ Example mx_from_the_wire :
     tl_pack L = [("Preference"%string, K_u16); ("Mx"%string, K_name true)] /\
     rr_data r1 = [("Preference"%string, V_n 10); ("Mx"%string, V_s [98; 46])] /\
     rr_data r2 = [("Preference"%string, V_n 10); ("Mx"%string, V_s [66; 46])] /\
-    typed_for (layout_cmps L) (rr_data r1) = true /\
+    layout_typed L (rr_data r1) = true /\
     is_duplicate r1 r2 = Ok true.
 Proof. do 3 eexists. vm_compute. repeat split. Qed.
 
-(* MODEL GAP and FINDING.  The generated unpack() returns early on exhausted
-   RDATA and leaves the remaining struct fields at their zero value; the model
-   leaves them absent, and all statements above read "agree" on model values,
-   where an absent field differs from a present zero value (same_len, vget
-   equality).  Witness, records from the wire: CAA with RDATA 00 and CAA with
-   RDATA 00 00.  The model answers not duplicates; the Go library (run on these
-   octets) answers IsDuplicate = true: both decode to CAA(Flag 0, Tag empty,
-   Value empty).  So (a) the model is stricter than the code on truncated RDATA,
-   and (b) the code calls two records duplicates whose RDATA octets differ,
-   against the wire clause of C20. *)
-Theorem is_duplicate_absent_field_is_zero_value_refuted :
+(* FINDING (C20/wire/truncated-rdata-equals-zero-padded).  The generated unpack()
+   returns early when the RDATA is exhausted and leaves the remaining struct
+   fields at their zero value.  So the wire clause of C20 -- records from the wire
+   are duplicates exactly when type, class, lower-cased owner and RDATA octets
+   are equal -- fails for records whose RDATA ends early: CAA with RDATA 00
+   (Flag only) and CAA with RDATA 00 00 (Flag and an empty Tag) are both
+   accepted by UnpackRR (consuming the whole input), their RDATA octets differ,
+   and IsDuplicate says true in both directions (both are CAA(Flag 0, Tag empty,
+   Value empty)); the Go library, run on these octets, agrees. *)
+Theorem wire_clause_truncated_rdata_refuted :
   match unpack_rr caa_wire_short 0, unpack_rr caa_wire_empty_tag 0 with
-  | Ok (r1, _), Ok (r2, _) =>
+  | Ok (r1, o1), Ok (r2, o2) =>
     rr_kind r1 = "CAA"%string /\ rr_kind r2 = "CAA"%string /\
+    o1 = lenN caa_wire_short /\ o2 = lenN caa_wire_empty_tag /\
     rr_data r1 = [("Flag"%string, V_n 0)] /\
     rr_data r2 = [("Flag"%string, V_n 0); ("Tag"%string, V_s [])] /\
-    is_duplicate r1 r2 = Ok false /\ is_duplicate r1 r1 = Ok true /\ is_duplicate r2 r2 = Ok true
+    ([0] : bytes) <> [0; 0] /\
+    is_duplicate r1 r2 = Ok true /\ is_duplicate r2 r1 = Ok true
   | _, _ => False
   end.
-Proof. exact absent_field_vs_zero_value_witness. Qed.
-Print Assumptions is_duplicate_absent_field_is_zero_value_refuted.
+Proof. exact truncated_rdata_witness. Qed.
+Print Assumptions wire_clause_truncated_rdata_refuted.
+
+(* the two inputs: the same header (a. CAA IN 60), RDLENGTH 1 / 2, RDATA 00 / 00 00 *)
+Example truncated_rdata_inputs :
+  caa_wire_short = [1;97;0; 1;1; 0;1; 0;0;0;60; 0;1; 0] /\
+  caa_wire_empty_tag = [1;97;0; 1;1; 0;1; 0;0;0;60; 0;2; 0;0].
+Proof. split; reflexivity. Qed.
